@@ -531,19 +531,36 @@ def _mark_reuse(r, ops):
     to a caller-owned object that the caller later mutates is Python aliasing, which C04's
     statement does not rule on."""
     pool = {}
+    owned = {}          # (client, executor) -> ids of the objects that client has passed to that executor so far
     nid = 0
+    out = []
     for op in ops:
         items = op.get('cells') if op['op'] in ('set', 'gets') else [op] if op['op'] == 'get' else []
         used_here = set()
         for it in items:
             key = (op['client'], op.get('ex', 0), tuple(it['tg']), core.canon(it['at']))
+            mine = owned.setdefault((op['client'], op.get('ex', 0)), [])
+            cands = [i for i in mine if i not in used_here]
             if key in pool and r.random() < 0.6 and pool[key] not in used_here:
                 it['obj'] = pool[key]
+            elif cands and r.random() < 0.2:
+                # the caller RE-AIMS an object it used before at another coordinate (its identifiers are integers by
+                # now): after a call has returned the object is the caller's again, what it does with it must not matter
+                it['obj'] = r.choice(cands)
+                it['reaim'] = True
             else:
                 it['obj'] = nid
                 pool[key] = nid
                 nid += 1
+            if it['obj'] not in mine:
+                mine.append(it['obj'])
             used_here.add(it['obj'])
+        out.append(op)
+        if op['op'] == 'set' and op.get('cells') and r.random() < 0.25:
+            # ... or changes the value of an object it passed, without sending it again
+            c0 = r.choice(op['cells'])
+            out.append({'op': 'mutate', 'ex': op['ex'], 'client': op['client'], 'obj': c0['obj'], 'v': _value(r)})
+    ops[:] = out
 
 
 # ----------------------------------------------------------------------------------------------
@@ -608,6 +625,7 @@ def execute(plan, ctx):
     exs = [Executor().set_executed_class(class_object=K) for _ in range(n_ex)]
     sizes0 = [[dict(d) for d in ex.get_executed_class().get_sheets_size()] for ex in exs]
     objs = {}
+    aimed_at = {}       # object id -> coordinate the CALLER last pointed it at
     log = []
     clock_ns = FROZEN_NS
     dims = spec_dims(spec)
@@ -617,12 +635,19 @@ def execute(plan, ctx):
         if k is not None and k in objs:
             c = objs[k]
             probe('cell_object_reused')
+            if aimed_at.get(k) != tuple(it['tg']):
+                # the caller points its object at another coordinate (whether the plan says so or minimisation dropped the
+                # operation that did); an object that already denotes the target is passed again untouched
+                c.title, c.column, c.row = it['tg'][0], it['tg'][1], it['tg'][2]
+                aimed_at[k] = tuple(it['tg'])
+                probe('cell_object_reaimed_by_caller')
             if setting:
                 c.value = value
             return c
         c = _mk_cell(Cell, it['at'], value)
         if k is not None:
             objs[k] = c
+            aimed_at[k] = tuple(it['tg'])
         return c
 
     # ---- run the history, recording outcomes
@@ -633,6 +658,12 @@ def execute(plan, ctx):
             simclock.set_ns(clock_ns)
             log.append({'i': i, 'op': 'clock', 'ns': clock_ns})
             probe('clock_step')
+            continue
+        if kind == 'mutate':
+            if op.get('obj') in objs:
+                objs[op['obj']].value = dec_value(op['v'])
+                probe('caller_changed_a_passed_cell_object_afterwards')
+            log.append({'i': i, 'op': 'mutate'})
             continue
         ex = exs[op['ex'] % n_ex]
         if kind == 'set':
@@ -750,7 +781,7 @@ def _check_c04(plan, log, ctx, probe, dims):
                 feats.add('gt8')
             queried_after_write = False
             continue
-        if op['op'] == 'clock':
+        if op['op'] in ('clock', 'mutate'):
             continue
         if O[e] and not queried_after_write:
             probe('query_after_write')
@@ -939,7 +970,7 @@ def _check_c08(plan, log, ctx, probe, dims, src, final, sizes0, exs):
 
     had_exc = False
     for op, ent in zip(plan['ops'], log):
-        if op['op'] in ('set', 'clock'):
+        if op['op'] in ('set', 'clock', 'mutate'):
             if op['op'] == 'set' and ent['out'] != ['ok']:
                 mism.append({'key': 'set-raised', 'op': ent['i'], 'observed': ent['out'], 'expected': ['ok']})
             if op['op'] == 'set':
@@ -1139,6 +1170,8 @@ def shrink(plan):
         for op in p['ops']:
             for it in (op.get('cells') or [op]):
                 it.pop('obj', None)
+                it.pop('reaim', None)
+        p['ops'] = [op for op in p['ops'] if op['op'] != 'mutate']
         yield p
     # numeric addressing
     for i, op in enumerate(ops):
